@@ -274,7 +274,8 @@ PROPS["C04"] = dict(
         Family("grid2", "core2", r_grid2, 1, [(6, "sew2_spec", SEW_CLASSES)]),
         Family("core2-random", "core2", r_core2, 1, [(6, "sew2_spec", SEW_CLASSES)]),
     ],
-    trusted=PROPS["C01"]["trusted"],
+    trusted=PROPS["C01"]["trusted"] + ["translator tools/tr_sews.py (dim2/sews/one.rs, two.rs -> Map2/GenSews.v, proved equal to the "
+                                       "model's one_sew / one_unsew / two_sew / two_unsew by reflexivity: C04_sews_are_the_source)"],
     assumptions=PROPS["C01"]["assumptions"],
 )
 
@@ -326,18 +327,21 @@ REM_CLASSES = {"1": "map ill-formed after the operation", "2": "a face is not a 
                "7": "swap did not produce the two triangles around the other diagonal", "8": "a surviving cell lost or changed its anchor",
                "9": "removed darts not flagged", "10": "C15:collapse-vertex-off-midpoint"}
 PROPS["C15"] = dict(
+    translators=True,
     level="translation_validation",
     level_text="swap / cut / collapse (and the orientation routine, anchor algebra) transcribed in Gallina and compared with the "
                "implementation; the property (triangles stay triangles, well-formedness, V/E/F deltas, vertex set, exact area "
                "conservation, orientation after collapse, swap = other diagonal, anchors) is an executable Coq predicate "
                "applied to every implementation observation; proved: atomicity of failures, the area identities of swap and cut (C15_swap_conserves_area, C15_cut_conserves_area), "
                "and for ALL maps the well-formedness clause of swap and of both cuts (C15_swap_keeps_wf2, "
-               "C15_cut_outer_keeps_wf2, C15_cut_inner_keeps_wf2, Map2/KernWf.v); collapse: well-formedness per observation",
+               "C15_cut_outer_keeps_wf2, C15_cut_inner_keeps_wf2, Map2/KernWf.v) -- about programs REGENERATED from swap.rs / cut.rs on "
+               "every run (tools/tr_kern.py, C15_kernels_are_the_source); collapse: well-formedness per observation",
     technique="Coq model of the kernels + correspondence + extracted Coq specification (exact arithmetic) as per-run validator",
     families=[
         Family("kern-remesh", "core2", r_kern("remesh", 1200, 20000, 8), 1, [(9, "remesh_spec", REM_CLASSES)]),
     ],
-    trusted=KERNEL_TRUST,
+    trusted=KERNEL_TRUST + ["translator tools/tr_kern.py (remeshing/swap.rs, cut.rs -> Map2/GenKern.v, proved equal to the model's "
+                            "swap_edge / cut_outer_edge / cut_inner_edge by reflexivity); collapse.rs stays hand-transcribed"],
     assumptions=PROPS["C01"]["assumptions"],
 )
 
@@ -646,7 +650,8 @@ PROPS["C05"] = dict(
         Family("core3-hex", "core3", r_core3("hex", 400, 6000, 15), 50, [(53, "sew3_spec", SEW3_CLASSES)]),
         Family("core3-random", "core3", r_core3("random", 600, 10000, 25, ["--darts", "10"]), 50, [(53, "sew3_spec", SEW3_CLASSES)]),
     ],
-    trusted=MAP3_TRUST,
+    trusted=MAP3_TRUST + ["translator tools/tr_sews.py (dim3/sews/two.rs -> Map3/GenSews3.v = the model's two_sew3 / two_unsew3 by "
+                          "reflexivity: C05_two_sews_are_the_source); the 3D 1-sew and 3-sew stay hand-transcribed"],
     assumptions=PROPS["C01"]["assumptions"],
 )
 
